@@ -326,15 +326,19 @@ def run(ctx):
             ctx.nontriv(h)
         bad = reference(h, t, obs)
         if bad is not None:
-            n, what, want = bad
-            payload = {"ops": sx(h), "failing_op_index": n, "failing_op": sx(h[n]),
-                       "replay_case": "client_history\t" + sx([variant, [], h])}
-            if reference(h, t, obs, stale_attrs=True) is None:
+            pinned = reference(h, t, obs, stale_attrs=True) if variant == 0 else bad
+            if pinned is None:
                 # the behaviour is exactly that of the open known finding: first attributes kept
-                ctx.violations.append({"what": what, "input": payload, "observed": line[:3000], "required": sx(want),
-                                       "kind": "oracle", "known": "F-C14-1"})
+                n, what, want = bad
+                ctx.violations.append({"what": what, "input": {"ops": sx(h), "failing_op_index": n}, "observed": line[:3000],
+                                       "required": sx(want), "kind": "oracle", "known": "F-C14-1"})
             else:
-                ctx.violation(what, payload, observed=line[:3000], required=sx(want))
+                # report the first observation that the known finding does not explain
+                n, what, want = pinned
+                k = sum(1 for o in h[:n] if o[0] != 0)
+                payload = {"ops": sx(h), "failing_op_index": n, "failing_op": sx(h[n]),
+                           "replay_case": "client_history\t" + sx([variant, [], h])}
+                ctx.violation(what, payload, observed=sx(obs[k]) if k < len(obs) else line[:3000], required=sx(want))
         if len(ctx.samples) < 3 and nontriv:
             ctx.sample({"kind": "client_history", "ops": sx(h)[:600], "impl": line[:300]})
 
